@@ -4,6 +4,7 @@ from core import (enum_paths, path_atoms, path_calls, path_return, ret_variant, 
 from weight import WeightModel, accounting_flow
 from storemodel import StoreModel, local_uses
 
+WITNESSES = ['W5InternalsUnreachable']
 LEVEL = "other"
 EXPLANATION = ("Pairing rules on MIR paths: an admission function charges weight exactly once on every Accepted path "
                "and never on a rejected one; a put handler inserts into the store exactly once iff admission "
